@@ -114,6 +114,9 @@ def witness(ctx):
             for order in ((2, 4) if not deep else (1, 2, 3, 4)):
                 ctx.check("laminar2d", dict(cls=cls, N=N, L=L, kinj=kinj, gamma=0.7, order=order, nsteps=3))
         ctx.check("laminar2d", dict(cls=cls, N=12, L=3.0, kinj=2, gamma=-1.3, order=2, nsteps=1 if not deep else 7))
+        # forcing at the Nyquist wavenumber of an even grid (the sampled cosine is +-1; its coefficient is N^D a, not N^D a / 2)
+        for N, kinj in ((12, 6), (8, 4)) + (((10, 5), (16, 8)) if deep else ()):
+            ctx.check("laminar2d", dict(cls=cls, N=N, L=2.0, kinj=kinj, gamma=0.6, order=2 + (N // 4) % 3, nsteps=2))
         # convection scale != 1 and a non-zero laminar initial state: the forcing amplitude and the solution must not depend on b
         for b, a0, j0 in ((2.5, 0.0, 1), (-1.0, 0.6, 1), (0.25, -0.4, 3)) if not deep else ((2.5, 0.0, 1), (-1.0, 0.6, 1), (0.25, -0.4, 3), (3.0, 1.1, 2), (1.0, 0.5, 2)):
             ctx.check("laminar2d", dict(cls=cls, N=12, L=3.0, kinj=2, gamma=0.7, order=3, nsteps=2, b=b, a0=a0, j0=j0))
